@@ -29,7 +29,9 @@ pub const TYPE_NAMES: [&str; 5] = ["CN", "O", "X1234", "X2543", "OU"];
 pub const VALUE_NAMES: [&str; 4] = ["Ua", "Ub", "Pa", "Ue"];
 
 pub fn values() -> Vec<(StrKind, &'static str)> {
-    vec![(StrKind::Utf8, "a"), (StrKind::Utf8, "b"), (StrKind::Printable, "a"), (StrKind::Utf8, "")]
+    // the second value is the text CertificateParams::default() puts into its common name: a value the library itself
+    // knows about is a value like any other
+    vec![(StrKind::Utf8, "a"), (StrKind::Utf8, "rcgen self signed cert"), (StrKind::Printable, "a"), (StrKind::Utf8, "")]
 }
 
 pub fn ops(nt: usize) -> Vec<Op> {
@@ -407,6 +409,51 @@ pub fn run(prop: &str, tier: &str, replay: Option<&str>) -> i32 {
             }
             out.transitions = built.len() as u64;
             out.digest = fnv(format!("{:?}", specs[*i].0).as_bytes());
+            out
+        });
+        rep.add(sec);
+    }
+    // 3b'. the doors through which a text becomes a value: DnValue::Utf8String(text), and the implicit conversions from &str
+    // and String that push() takes; all three give the same name, and get() returns exactly the text that went in
+    {
+        let mut texts: Vec<String> = crate::certspace::value_shapes().into_iter().map(|s| s.to_string()).collect();
+        texts.extend(["x\n", "x\r\n", "x\r", "\nx", "x\n\n", " x ", "x\t", "rcgen self signed cert", "x\u{0}"].iter().map(|s| s.to_string()));
+        let types = [rcgen::DnType::CommonName, rcgen::DnType::OrganizationName, rcgen::DnType::CustomDnType(vec![1, 2, 3, 4])];
+        let cases: Vec<(usize, usize)> = (0..texts.len()).flat_map(|t| (0..types.len()).map(move |y| (t, y))).collect();
+        let sec = Section::new("values/doors", &format!("{} texts (value shapes; line breaks, blanks, NUL at the edges; the library's default common name) x 3 attribute types through push(type, DnValue::Utf8String(text)), push(type, &str) and push(type, String): equal names, get() returns the text, the encoded subject carries it", texts.len()));
+        run::sweep_cases(&sec, &cases, &|c| format!("{:?} under {:?}", texts[c.0], types[c.1]), &|c| {
+            let mut out = Outcome::default();
+            let t = &texts[c.0];
+            let ty = types[c.1].clone();
+            let mut a = DistinguishedName::new();
+            a.push(ty.clone(), rcgen::DnValue::Utf8String(t.clone()));
+            let mut b = DistinguishedName::new();
+            b.push(ty.clone(), t.as_str());
+            let mut d = DistinguishedName::new();
+            d.push(ty.clone(), t.clone());
+            for (door, n) in [("&str", &b), ("String", &d)] {
+                if *n != a {
+                    out.findings.push(Finding::new("DN-VALUE-DOOR", door, format!("push(type, {:?}) through {} gives a name unequal to the one built from DnValue::Utf8String", t, door)));
+                }
+                match n.get(&ty) {
+                    Some(rcgen::DnValue::Utf8String(x)) if x == t => {}
+                    other => out.findings.push(Finding::new("DN-VALUE-DOOR", door, format!("get() after push(type, {:?}) returns {:?}", t, other))),
+                }
+            }
+            // and what a certificate says
+            let mut p = rcgen::CertificateParams::default();
+            p.distinguished_name = b;
+            if let SubjectSrc::Pair(kp) = &ctx.subject {
+                if let Ok(Ok(cert)) = guarded(|| p.self_signed(kp)) {
+                    let abs = refmodel::x509::decode_cert(cert.der()).value;
+                    let got: Vec<Option<String>> = abs.map(|a| a.subject.iter().flatten().map(|x| x.text()).collect()).unwrap_or_default();
+                    if got != vec![Some(t.clone())] {
+                        out.findings.push(Finding::new("DN-VALUE-DOOR", "encoded subject", format!("push(type, {:?}) is encoded as {:?}", t, got)));
+                    }
+                }
+            }
+            out.transitions = 4;
+            out.digest = fnv(t.as_bytes());
             out
         });
         rep.add(sec);
